@@ -32,6 +32,7 @@ const (
 // Program is one DSL program: the calls made at package level, in order.
 type Program struct {
 	ID    int     `json:"id"`
+	Mode  string  `json:"mode,omitempty"` // how it was drawn: wild | tidy (evidence only)
 	Calls []*Call `json:"calls"`
 }
 
